@@ -383,7 +383,13 @@ impl<'a> Run<'a> {
             Ok(response) => response,
             Err(_) => return None,
         };
-        if response.content_length() > self.collector.config().max_object_size {
+        if matches!(
+            (
+                response.content_length(),
+                self.collector.config().max_object_size
+            ),
+            (Some(len), Some(max)) if len > max
+        ) {
             warn!(
                 "Trust anchor certificate {uri} exceeds size limit. \
                  Ignoring."
